@@ -65,6 +65,35 @@ def rand_ast(rng, depth, alphabet):
     return {"t": "grp", "r": rand_ast(rng, depth - 1, alphabet)}
 
 
+def sample(rng, a, depth=0):
+    """a string (list of octets) the AST matches as a whole, or None"""
+    t = a["t"]
+    if t == "lit": return [a["c"]]
+    if t == "any": return [rng.choice(b"abtx9 ")]
+    if t in ("bol", "eol", "empty"): return []
+    if t == "class":
+        pool = [c for c in b"abtx 0123456789q" if (c in a["cs"]) != a["neg"]]
+        return [rng.choice(pool)] if pool else None
+    if t == "grp": return sample(rng, a["r"], depth)
+    if t == "cat":
+        l, r = sample(rng, a["l"], depth), sample(rng, a["r"], depth)
+        return None if l is None or r is None else l + r
+    if t == "alt":
+        first = rng.random() < 0.5
+        x = sample(rng, a["l"] if first else a["r"], depth)
+        return x if x is not None else sample(rng, a["r"] if first else a["l"], depth)
+    if t in ("star", "plus", "opt"):
+        n = {"star": rng.choice([0, 1, 2]), "plus": rng.choice([1, 2]), "opt": rng.choice([0, 1])}[t]
+        out = []
+        for _ in range(n):
+            x = sample(rng, a["r"], depth + 1)
+            if x is None:
+                return None if t == "plus" else out
+            out += x
+        return out
+    return None
+
+
 def strip_lazy(a):
     if isinstance(a, dict):
         return {k: strip_lazy(v) for k, v in a.items() if k != "lazy"}
@@ -137,6 +166,9 @@ def base_cfg(rng=None, tag=""):
         user("frank", ["s1", "s2"], auth(pw("frank")), acct=True, groups=[g1]),   # own overrides group
         user("gina", ["s1"], {"k": "nohash", "pw": ""}),
         user("hank", ["s1"], {"k": "unknown", "pw": ""}),
+        # the first group with an authenticator has no accounter: the group loop goes on to the next group
+        user("ivan", ["s1"], None, groups=[group("g3", auth(pw("g3"))), g2, g1]),
+        user("judy", ["s1"], None, acct=True, groups=[g0, g2, group("g4", auth(pw("g4")), acct=True)]),
     ]
     return {"secrets": [secret("s1", "key-of-scope-one", ["10.1.0.0/16", "2001:db8:1::/48"]),
                         secret("s2", "key-of-scope-two", ["10.2.0.0/16"])],
